@@ -40,8 +40,10 @@ Example session_v1_premises_sat :
 Proof.
   split.
   - cbn [session s_cs1]. unfold accepted, s_call. cbn [c_proof c_src c_tgt c_salh c_talh].
-    repeat split; try (vm_compute; reflexivity); [left; reflexivity | right; reflexivity].
-  - repeat constructor; try good_hdr; vm_compute; repeat constructor.
+    split; [vm_compute; reflexivity|]. split; [left; reflexivity|].
+    split; [vm_compute; reflexivity|]. split; [right; reflexivity | exact I].
+  - constructor; [|constructor; [|constructor]];
+      (split; [good_hdr | repeat split; vm_compute; repeat constructor]).
 Qed.
 
 Example session_v2_premises_sat :
@@ -49,8 +51,10 @@ Example session_v2_premises_sat :
 Proof.
   split.
   - cbn [session s_cs2]. unfold accepted, s_call. cbn [c_proof c_src c_tgt c_salh c_talh].
-    repeat split; try (vm_compute; reflexivity); [left; reflexivity | right; reflexivity].
-  - repeat constructor; try good_hdr; vm_compute; repeat constructor.
+    split; [vm_compute; reflexivity|]. split; [left; reflexivity|].
+    split; [vm_compute; reflexivity|]. split; [right; reflexivity | exact I].
+  - constructor; [|constructor; [|constructor]];
+      (split; [good_hdr | repeat split; vm_compute; repeat constructor]).
 Qed.
 
 (* fact (T): the consistency proof 2 -> 3 of the tree and the inclusion proof of leaf 1 in the tree
